@@ -38,10 +38,9 @@ import (
 )
 
 var (
-	rxPunctuation      = regexp.MustCompile(`\s+([.?!,;])\s*(\S*)`)
-	rxTempNewline      = regexp.MustCompile(`\s*\|\\/\|\s*`)
-	rxCSSComment       = regexp.MustCompile(`(?s)/\*.*?\*/`)
-	rxSrcsetURL        = regexp.MustCompile(`(?i)(\S+)(\s+[\d.]+[xw])?(\s*(?:,|$))`)
+	rxPunctuation = regexp.MustCompile(`\s+([.?!,;])\s*(\S*)`)
+	rxTempNewline = regexp.MustCompile(`\s*\|\\/\|\s*`)
+	rxCSSComment  = regexp.MustCompile(`(?s)/\*.*?\*/`)
 
 	elementWithSizeAttr = map[string]struct{}{
 		"table": {},
@@ -205,10 +204,10 @@ func GetSrcSetURLs(node *html.Node) []string {
 		return nil
 	}
 
-	matches := rxSrcsetURL.FindAllStringSubmatch(srcset, -1)
-	urls := make([]string, len(matches))
-	for i, group := range matches {
-		urls[i] = group[1]
+	spans := srcSetURLSpans(srcset)
+	urls := make([]string, len(spans))
+	for i, span := range spans {
+		urls[i] = srcset[span[0]:span[1]]
 	}
 
 	return urls
@@ -331,12 +330,71 @@ func makeSrcSetAbsolute(node *html.Node, pageURL *nurl.URL) {
 		return
 	}
 
-	newSrcset := rxSrcsetURL.ReplaceAllStringFunc(srcset, func(s string) string {
-		p := rxSrcsetURL.FindStringSubmatch(s)
-		return stringutil.CreateAbsoluteURL(p[1], pageURL) + p[2] + p[3]
-	})
+	var sb strings.Builder
+	last := 0
+	for _, span := range srcSetURLSpans(srcset) {
+		sb.WriteString(srcset[last:span[0]])
+		sb.WriteString(stringutil.CreateAbsoluteURL(srcset[span[0]:span[1]], pageURL))
+		last = span[1]
+	}
+	sb.WriteString(srcset[last:])
 
-	dom.SetAttribute(node, "srcset", newSrcset)
+	dom.SetAttribute(node, "srcset", sb.String())
+}
+
+// srcSetURLSpans returns the position of the URL of each image candidate in
+// a `srcset` attribute. It follows the splitting rules of HTML: candidates are
+// separated by commas, the URL is the first run of non white space characters
+// of a candidate, and everything after it up to the next comma outside
+// parentheses is its descriptor (e.g. "2x", "1e0x", "100w 50h") whatever it
+// looks like.
+func srcSetURLSpans(srcset string) [][2]int {
+	isSpace := func(c byte) bool {
+		return c == ' ' || c == '\t' || c == '\n' || c == '\f' || c == '\r'
+	}
+
+	var spans [][2]int
+	i, n := 0, len(srcset)
+	for i < n {
+		// Skip white space and commas between candidates
+		for i < n && (isSpace(srcset[i]) || srcset[i] == ',') {
+			i++
+		}
+		if i >= n {
+			break
+		}
+
+		// Collect the URL
+		start := i
+		for i < n && !isSpace(srcset[i]) {
+			i++
+		}
+
+		end := i
+		if srcset[end-1] == ',' {
+			// The trailing commas end the candidate, it has no descriptor
+			for end > start && srcset[end-1] == ',' {
+				end--
+			}
+		} else {
+			// Skip the descriptor
+			depth := 0
+			for i < n && (srcset[i] != ',' || depth > 0) {
+				if srcset[i] == '(' {
+					depth++
+				} else if srcset[i] == ')' && depth > 0 {
+					depth--
+				}
+				i++
+			}
+		}
+
+		if end > start {
+			spans = append(spans, [2]int{start, end})
+		}
+	}
+
+	return spans
 }
 
 // =================================================================================
